@@ -87,6 +87,7 @@ func execC09(c CaseC09) *Outcome {
 		st[i] = make([]iface.Store, n)
 	}
 	addrs := make([]string, n)
+	shared0 := &orbitdb.CreateDBOptions{}
 	for d, db := range c.DBs {
 		var list []string
 		switch db.List {
@@ -98,22 +99,24 @@ func execC09(c CaseC09) *Outcome {
 			list = []string{"*"}
 		}
 		ac := &accesscontroller.CreateAccessControllerOptions{Access: map[string][]string{"write": list}}
-		s0, err := w.Peers[0].DB.Create(ctx, fmt.Sprintf("db%d", d), db.Type, &orbitdb.CreateDBOptions{AccessController: ac})
+		// the author creates the database; the instance under test opens all of its databases with ONE
+		// options value, as callers commonly do
+		s2, err := w.Peers[2].DB.Create(ctx, fmt.Sprintf("db%d", d), db.Type, &orbitdb.CreateDBOptions{AccessController: ac, Replicate: &no})
 		if err != nil {
 			return fail("harness: create: %v", err)
 		}
-		addrs[d] = s0.Address().String()
+		addrs[d] = s2.Address().String()
+		st[2][d] = s2
+		s0, err := w.Peers[0].DB.Open(ctx, addrs[d], shared0)
+		if err != nil {
+			return fail("harness: open: %v", err)
+		}
 		st[0][d] = s0
 		s1, err := w.Peers[1].DB.Open(ctx, addrs[d], &orbitdb.CreateDBOptions{})
 		if err != nil {
 			return fail("harness: open: %v", err)
 		}
 		st[1][d] = s1
-		s2, err := w.Peers[2].DB.Open(ctx, addrs[d], &orbitdb.CreateDBOptions{Replicate: &no})
-		if err != nil {
-			return fail("harness: open: %v", err)
-		}
-		st[2][d] = s2
 		for p := 0; p < 3; p++ {
 			if err := st[p][d].Load(ctx, -1); err != nil {
 				return fail("harness: load: %v", err)
